@@ -4,6 +4,11 @@
 //! more octets -- with the three name compressors and without one. The finished message has to parse back to
 //! exactly the records whose push succeeded, with ANCOUNT equal to their number, and a failed push has to leave the
 //! message octets as they were.
+//! Part 2 (name shapes): every ordered triple out of 16 names chosen for their shape -- a label run that repeats at once
+//! (www.www.example.com, 1.1.168.192.in-addr.arpa), a period-two repeat (a.b.a.b.example.org), names that are label-wise
+//! prefixes or suffixes of one another, the same labels in another case, one-label names, the root, 63-octet labels --
+//! pushed as owner and as exchange of MX records: under every compressor the message parses and gives back the names
+//! that were pushed (up to letter case).
 use domain::base::message_builder::{HashCompressor, StaticCompressor, TreeCompressor};
 use domain::base::name::Name;
 use domain::base::wire::Composer;
@@ -61,8 +66,81 @@ fn run<T: Composer>(what: &str, target: T, seq: &[Op]) -> Result<(), String> {
     Ok(())
 }
 
+const SHAPES: [&str; 16] = [
+    "www.www.example.com.", "www.example.com.", "example.com.", "com.", ".", "1.1.168.192.in-addr.arpa.", "168.192.in-addr.arpa.",
+    "a.b.a.b.example.org.", "b.a.b.example.org.", "a.b.example.org.", "WWW.Example.COM.", "www.example.com.www.example.com.",
+    "example.", "example.example.", "aaaaaaaaaaaaaaaaaaaaaaaaaaaaaaaaaaaaaaaaaaaaaaaaaaaaaaaaaaaaaaa.aaaaaaaaaaaaaaaaaaaaaaaaaaaaaaaaaaaaaaaaaaaaaaaaaaaaaaaaaaaaaaa.example.com.",
+    "x.www.www.example.com.",
+];
+
+fn run_shapes<T: Composer>(what: &str, target: T, pick: [usize; 3]) -> Result<(), String> {
+    use domain::rdata::Mx;
+    let mut mb = MessageBuilder::from_target(target).map_err(|_| "from_target".to_string())?;
+    mb.header_mut().set_id(1);
+    let mut q = mb.question();
+    q.push((Name::<Vec<u8>>::from_str(SHAPES[pick[0]]).unwrap(), Rtype::MX)).map_err(|_| "question".to_string())?;
+    let mut a = q.answer();
+    let mut want = Vec::new();
+    for k in 0..3 {
+        let owner = Name::<Vec<u8>>::from_str(SHAPES[pick[k]]).unwrap();
+        let exch = Name::<Vec<u8>>::from_str(SHAPES[pick[(k + 1) % 3]]).unwrap();
+        a.push((owner.clone(), 30, Mx::new(k as u16, exch.clone()))).map_err(|_| format!("[{what}] push {k} failed"))?;
+        want.push((owner, k as u16, exch));
+    }
+    let bytes = a.as_slice().to_vec();
+    let msg = Message::from_octets(bytes.clone()).map_err(|_| "short message".to_string())?;
+    let qn = msg.question().next().ok_or("no question")?.map_err(|e| format!("[{what}] question: {e}; message {bytes:02x?}"))?;
+    if qn.qname() != &want[0].0 {
+        return Err(format!("[{what}] question name reads back as {}; message {bytes:02x?}", qn.qname()));
+    }
+    let ans = msg.answer().map_err(|e| format!("[{what}] answer section does not parse: {e}; message {bytes:02x?}"))?;
+    let mut got = 0;
+    for r in ans.limit_to::<Mx<_>>() {
+        let r = r.map_err(|e| format!("[{what}] record {got} does not parse: {e}; message {bytes:02x?}"))?;
+        let w = want.get(got).ok_or(format!("[{what}] more records than pushed"))?;
+        if r.owner() != &w.0 || r.data().preference() != w.1 || r.data().exchange() != &w.2 {
+            return Err(format!(
+                "[{what}] record {got}: pushed {} MX {} {} but reads back as {} MX {} {}; message {bytes:02x?}",
+                w.0, w.1, w.2, r.owner(), r.data().preference(), r.data().exchange()
+            ));
+        }
+        got += 1;
+    }
+    if got != 3 {
+        return Err(format!("[{what}] {got} records read back, 3 pushed; message {bytes:02x?}"));
+    }
+    Ok(())
+}
+
 fn main() {
     std::panic::set_hook(Box::new(|_| {}));
+    let mut shapes = 0u64;
+    for i in 0..SHAPES.len() {
+        for j in 0..SHAPES.len() {
+            for k in 0..SHAPES.len() {
+                let pick = [i, j, k];
+                shapes += 1;
+                let r = std::panic::catch_unwind(move || {
+                    run_shapes("no compressor", Vec::<u8>::new(), pick)?;
+                    run_shapes("StaticCompressor", StaticCompressor::new(Vec::<u8>::new()), pick)?;
+                    run_shapes("TreeCompressor", TreeCompressor::new(Vec::<u8>::new()), pick)?;
+                    run_shapes("HashCompressor", HashCompressor::new(Vec::<u8>::new()), pick)
+                });
+                let names = [SHAPES[i], SHAPES[j], SHAPES[k]];
+                match r {
+                    Ok(Ok(())) => {}
+                    Ok(Err(e)) => {
+                        println!("FAILING INPUT: MX records with owners / exchanges {names:?}\n{e}");
+                        std::process::exit(1);
+                    }
+                    Err(_) => {
+                        println!("FAILING INPUT: MX records with owners / exchanges {names:?}\nPANIC");
+                        std::process::exit(1);
+                    }
+                }
+            }
+        }
+    }
     let mut ops = Vec::new();
     for i in 0..3 {
         ops.push(Op::Push(i));
@@ -99,5 +177,5 @@ fn main() {
             }
         }
     }
-    println!("OK: {} push sequences x 4 targets read back as pushed", n);
+    println!("OK: {} push sequences and {} name-shape triples x 4 targets read back as pushed", n, shapes);
 }
